@@ -125,6 +125,12 @@ func runC19(c *fw.Case) {
 			t2 = time.Time{}
 		}
 		zeroProbe = "before-start"
+	case mode == 1 && mintDenom != "uc4e" && mc.Schedule.Start.After(gen.Epoch.Add(time.Millisecond)):
+		// the first block of the emission, exactly at the start time, on a denomination
+		// that does not exist yet: nothing is minted, the supply is zero and the rate of
+		// the first period (whatever its kind) must be reported as 0, not fail
+		t = mc.Schedule.Start
+		zeroProbe = "at-start-zero-supply"
 	default:
 		if !lo.Before(hiA) {
 			c.Describe("degenerate", mc.Describe())
@@ -154,6 +160,9 @@ func runC19(c *fw.Case) {
 		t2 = t.Add(dt)
 	}
 	extra := gen.BigAmount(c.R, 30)
+	if zeroProbe == "at-start-zero-supply" {
+		extra = big.NewInt(0)
+	}
 	c.Describe(mc.Describe(), fmtTime(t), fmtTime(t2), extra.String())
 
 	whale := chain.NewKey("whale")
@@ -212,6 +221,14 @@ func runC19(c *fw.Case) {
 		c.Count("zero_before_start", 1)
 		if I.Sign() != 0 {
 			c.Violate("C19/nonzero-before-start", "inflation %s before the start time (t=%s start=%s)", resp.Inflation, fmtTime(t), fmtTime(mc.Schedule.Start))
+			return
+		}
+		c.Nontrivial(true)
+	}
+	if zeroProbe == "at-start-zero-supply" && S.Sign() == 0 {
+		c.Count("zero_supply_at_start_"+mc.Desc[0], 1)
+		if I.Sign() != 0 {
+			c.Violate("C19/nonzero-without-supply", "inflation %s reported while the supply of %s is zero", resp.Inflation, mintDenom)
 			return
 		}
 		c.Nontrivial(true)
